@@ -68,7 +68,7 @@ def g_rt_mir(ctx):
     F = _rt_facts(ctx)
     size, bal = rules_rt.rule_size_bal(F)
     out = [rules_rt.rule_mapfree(F), rules_rt.rule_freeze(F), rules_rt.rule_unsafe(F), rules_rt.rule_cborder(F), rules_rt.rule_len(F),
-           size, bal, rules_rt.rule_sym(F)]
+           size, bal, rules_rt.rule_sym(F), rules_rt.rule_kahn(F)]
     for r in out:
         r.counts["mir_bodies"] = len(F.bodies)
     return out
@@ -166,7 +166,7 @@ RULE_GROUP = {
     "M-DIGEST": "cc_digest", "M-PANIC": "cc_diag", "M-LINES": "cc_diag", "M-DET": "cc_det", "M-PAR": "cc_det", "M-DIRTAINT": "cc_det",
     "M-FUNCDOM": "cc_misc", "M-EMIT": "cc_misc", "M-DETRT": "rt_det", "T-X": "x", "T-DET": "x", "T-TYPECHECK": "typecheck",
     "M-MAPFREE": "rt_mir", "M-FREEZE": "rt_mir", "M-UNSAFE": "rt_mir", "M-CBORDER": "rt_mir", "M-LEN": "rt_mir", "M-SIZE": "rt_mir",
-    "M-BAL": "rt_mir", "M-SYM": "rt_mir", "M-UF": "rt_syn", "S-SIB": "rt_syn", "S-PRUNE": "rt_syn",
+    "M-BAL": "rt_mir", "M-SYM": "rt_mir", "M-KAHN": "rt_mir", "M-UF": "rt_syn", "S-SIB": "rt_syn", "S-PRUNE": "rt_syn",
     "T-API": "api", "T-ALLOC": "api", "T-ENUM": "api",
 }
 
@@ -191,7 +191,7 @@ PROPERTIES = {
     "C05": {"rules": ["T-API", "T-INS", "M-UF"], "level": "other"},
     "C08": {"rules": ["S-SIB", "S-PRUNE", "T-PRUNE-USE", "M-FREEZE", "M-UNSAFE", "M-MAPFREE", "M-CBORDER"], "level": "other"},
     "C14": {"rules": ["M-FREEZE", "M-UNSAFE", "M-MAPFREE", "M-CBORDER", "M-LEN", "M-SIZE", "M-BAL"], "level": "other"},
-    "C18": {"rules": ["M-SYM", "T-MOR"], "level": "other"},
+    "C18": {"rules": ["M-SYM", "M-KAHN", "T-MOR"], "level": "other"},
     "C06": {"rules": ["T-ALLOC", "M-FUNCDOM", "T-DIRTY", "T-MOVE", "T-CANON", "S-PRUNE"], "level": "other"},
     "C09": {"rules": ["T-TYPECHECK", "T-ENV", "T-X", "T-DELTA"], "level": "translation_validation"},
     "C11": {"rules": ["M-PANIC", "M-LINES"], "level": "other"},
